@@ -3,6 +3,9 @@
 //! driver (`driver attrs`), which runs the model parser on the same list and evaluates the monitors.
 //!
 //! usage: attrs_diff gen <seed> <n_valid> <n_malformed> [--no-overridden]
+//!   (`--no-overridden` leaves out the class "invalid value followed by a valid one of the same attribute";
+//!    it was needed while the parser silently dropped such values (before commit 82aef8c) and is kept for
+//!    compatibility only: the default stream is expected to be clean)
 //!
 //! Line protocol (fields separated by `|`):
 //!
@@ -11,7 +14,8 @@
 //!   T|<hex of the return type's token string>|<0|1>   `is_result` as the macros compute it
 //!   #STAT …                                          input distribution
 //!
-//! `oc` = 1 when this build of cachelito-macro-utils panics on `usize` overflow (detected at start-up).
+//! `oc` = 1 when this build of cachelito-macro-utils panics on `usize` overflow in the max_memory arithmetic
+//! (detected at start-up).  Always 0 since commit 1b1b026 (`checked_mul`); the field is kept for compatibility.
 //!
 //! attrs   = items joined by `;`, each `name=VAL`, VAL one of
 //!   I:<+|->:<decimal value>:<suffix>     integer literal (value as syn's base10_digits)
@@ -871,17 +875,13 @@ fn main() {
                 emit(&mut out, &mut stats, &mut rm, oc, is_async, &class, &l);
             }
             2 if with_overridden => {
-                // an invalid limit / ttl / max_memory value that a LATER valid occurrence overrides
-                let n = *rm.pick(&["limit", "ttl", "max_memory"]);
+                // an invalid limit / ttl / max_memory / frequency_weight value FOLLOWED by a valid occurrence of
+                // the same attribute: silently overridden before commit 82aef8c, must be rejected now
+                let n = *rm.pick(&["limit", "ttl", "max_memory", "frequency_weight"]);
                 let bad = loop {
                     let (_, bn, bv) = malformed_attr(&mut rm, is_async);
                     if bn == n {
-                        // values that make the parser panic are rejected wherever they stand; keep the spliced ones
-                        let panics = matches!((&bv, n), (Val::Int { .. }, "ttl") | (Val::Int { .. }, "max_memory"))
-                            || matches!(&bv, Val::Str(s) if n == "max_memory" && ["18014398509481984KB", "17592186044416MB", "17179869184GB"].contains(&s.as_str()));
-                        if !panics {
-                            break bv;
-                        }
+                        break bv;
                     }
                 };
                 l.retain(|(x, _)| x != n);
@@ -918,14 +918,8 @@ fn main() {
                 if rm.chance(1, 2) {
                     l.retain(|(x, _)| *x != n);
                 }
-                // make the malformed value the LAST occurrence of its attribute (otherwise see `overridden`)
-                let pos = insert_at(&mut rm, &mut l, (n.clone(), v));
-                let mut idx = 0usize;
-                l.retain(|(x, _)| {
-                    let keep = !(idx > pos && *x == n);
-                    idx += 1;
-                    keep
-                });
+                // anywhere in the list, before or after valid occurrences of the same attribute
+                insert_at(&mut rm, &mut l, (n.clone(), v));
                 emit(&mut out, &mut stats, &mut rm, oc, is_async, &class, &l);
             }
         }
